@@ -98,7 +98,7 @@ def h_mut(p: int, k: int) -> bool:
         if k == i:
             kk = i
     bad, n = _concrete(pp, kk)
-    return fin(bad == [], n >= 1)
+    return fin(bad == [], n >= 1 or OP == "none")
 
 
 @untraced
